@@ -152,4 +152,33 @@ def loadBlock (s : BS) (h : Int) : LoadB :=
 def delPart (s : BS) (h i : Int) : BS := { s with parts := s.parts.filter fun e => e.1 ≠ (h, i) }
 def delMeta (s : BS) (h : Int) : BS := { s with metas := s.metas.filter fun e => e.1 ≠ h }
 
+/-- every loader returns the data handed to `SaveBlock(b, parts of b split in total, seen)`:
+the meta, each part, the whole block, the block's `LastCommit` under `height - 1`, the seen commit
+(a commit that encodes to nothing reads back as nil, see `readCommit`) -/
+def Holds (s : BS) (b : Block) (total : Nat) (seen : CommitD) : Prop :=
+  loadMeta s b.height = some ⟨b, total⟩ ∧
+  (∀ i : Nat, i < total → loadPart s b.height (i : Int) = some ⟨b, total, i⟩) ∧
+  loadBlock s b.height = .ok b ∧
+  loadCommit s (b.height - 1) = readCommit (some b.lastCommit) ∧
+  loadSeen s b.height = readCommit (some seen)
+
+/-! ### histories of store operations (what a node does: `SaveBlock` calls and restarts) -/
+
+inductive BOp
+  | save (blk : Option Block) (total : Nat) (missing : Option Nat) (seen : CommitD)
+  | reopen
+deriving Repr
+
+def applyB (s : BS) : BOp → BS
+  | .save blk total missing seen => (saveBlock s blk total missing seen).1
+  | .reopen => reopen s
+
+def runB (s : BS) (ops : List BOp) : BS := ops.foldl applyB s
+
+/-- every block handed to `SaveBlock` has a height ≥ `lo` (`Header.ValidateBasic` demands ≥ 1) -/
+def heightsAtLeast (lo : Int) : List BOp → Prop
+  | [] => True
+  | .save (some b) _ _ _ :: r => lo ≤ b.height ∧ heightsAtLeast lo r
+  | _ :: r => heightsAtLeast lo r
+
 end GnoVerif.C41
